@@ -70,3 +70,53 @@ func repoTraceSummary(st *TraceStats, rs *run.RepoTraceStats) string {
 	return fmt.Sprintf("repository test-suite under trace hooks: %d events, %d containers, %d converted, left out {%s}\n%s",
 		rs.Events, rs.Containers, rs.Converted, strings.Join(sk, "; "), st.summary())
 }
+
+// takeRepoTrace attributes the divergences of the repository-test-suite stage.
+func (rep *Report) takeRepoTrace(def *propDef, st *TraceStats, rs *run.RepoTraceStats, err error) {
+	if st == nil || rs == nil {
+		rep.Infra = append(rep.Infra, fmt.Sprintf("repo-tests stage failed: %v", err))
+		return
+	}
+	rep.Traces = append(rep.Traces, st)
+	rep.RepoStats = rs
+	fmt.Println(repoTraceSummary(st, rs))
+	if err != nil {
+		rep.Infra = append(rep.Infra, fmt.Sprintf("repo-tests: %v", err))
+	}
+	for _, e := range st.TLC.Errors {
+		rep.Infra = append(rep.Infra, "repo-tests: TLC: "+e)
+	}
+	for _, e := range st.HarnessErr {
+		rep.Infra = append(rep.Infra, "repo-tests: harness: "+e)
+	}
+	for _, e := range st.Disagree {
+		rep.Infra = append(rep.Infra, "repo-tests: "+e)
+	}
+	if rs.Converted*2 < rs.Containers {
+		rep.Infra = append(rep.Infra, fmt.Sprintf("repo-tests: only %d of %d containers could be converted (%v)", rs.Converted, rs.Containers, rs.Skipped))
+	}
+	for _, ex := range st.Examples {
+		if def.claims(ex.Div.Kind, ex.Div.Detail) {
+			rep.Findings = append(rep.Findings, Finding{Property: rep.Prop, Kind: ex.Div.Kind, Detail: ex.Div.Detail + " [" + ex.Rec.Cat.Note[:strings.Index(ex.Rec.Cat.Note+" of ", " of ")] + "]",
+				Stage: "repo-tests", Source: "special", Catalog: ex.Rec.Cat})
+		} else {
+			rep.note(ex.Div.Kind, ex.Div.Detail)
+		}
+	}
+}
+
+// replayRepoTrace re-runs the stage: the finding reproduces if the same divergence shows again.
+func replayRepoTrace(def *propDef, f *Finding) int {
+	st, _, err := repoTraceStage(10*time.Minute, 1000)
+	if err != nil || st == nil {
+		fmt.Println("replay:", err)
+		return 2
+	}
+	for _, ex := range st.Examples {
+		if ex.Div.Kind == f.Kind && strings.HasPrefix(f.Detail, ex.Div.Detail) {
+			fmt.Println("reproduced:", ex.Div.Kind, ex.Div.Detail)
+			return 1
+		}
+	}
+	return 0
+}
